@@ -2,12 +2,14 @@ package main
 
 import (
 	"bytes"
+	"net/http/httptest"
 	"fmt"
 	"io"
 	"runtime"
 	"strings"
 
 	icl "github.com/moov-io/imagecashletter"
+	"github.com/moov-io/imagecashletter/verifhooks"
 )
 
 // chunkReader delivers data according to a schedule of read sizes (0 = a zero-length read);
@@ -385,5 +387,94 @@ func runC16(cfg *config) *Report {
 		}
 	}
 	rep.Evaluations = evals
+	evals += uploadFragmentation(cfg, rep, r)
+	rep.Evaluations = evals
 	return rep
+}
+
+// fragReader delivers a request body n bytes at a time (n == 0: as much as the caller asks for)
+type fragReader struct {
+	b []byte
+	n int
+}
+
+func (f *fragReader) Read(p []byte) (int, error) {
+	if len(f.b) == 0 {
+		return 0, io.EOF
+	}
+	k := len(p)
+	if f.n > 0 && f.n < k {
+		k = f.n
+	}
+	if k > len(f.b) {
+		k = len(f.b)
+	}
+	copy(p, f.b[:k])
+	f.b = f.b[k:]
+	return k, nil
+}
+
+func (f *fragReader) Close() error { return nil }
+
+// uploadFragmentation: the same upload through the server's own reader front ends (POST /v2/files as a multipart form
+// and as a raw body, POST /files/create as a raw body), with the request body arriving whole and in fragments of 1, 2, 3,
+// 5 and 64 bytes: the answer and the stored file must not depend on how the body was cut up
+func uploadFragmentation(cfg *config, rep *Report, r rng) int {
+	n := 0
+	f, err := genFile(r, genOpts{maxCL: 1, maxBundles: 1, maxItems: 2, mutateP: 30})
+	if err != nil {
+		return 0
+	}
+	for _, e := range []encCfg{{true, false}, {true, true}, {false, false}} {
+		out, werr, _ := realWrite(f, e)
+		if werr != nil {
+			continue
+		}
+		for _, q := range []*apiReq{
+			{Kind: "c2", CT: "multipart/form-data", Multipart: "file:text/plain", Body: out},
+			{Kind: "c2", CT: "multipart/form-data", Multipart: "file:application/octet-stream", Body: out},
+			{Kind: "c2", CT: "multipart/form-data", Multipart: "file:", Body: out},
+			{Kind: "c1", CT: "application/octet-stream", Body: out},
+			{Kind: "c1", CT: "text/plain", Body: out},
+		} {
+			ref := ""
+			for _, frag := range []int{0, 1, 2, 3, 5, 64} {
+				repo := verifhooks.NewInMemoryRepo()
+				router := verifhooks.NewRouter(repo)
+				req, err := q.build("http://verif.local")
+				if err != nil {
+					continue
+				}
+				body, _ := io.ReadAll(req.Body)
+				req.Body = &fragReader{b: body, n: frag}
+				req.ContentLength = int64(len(body))
+				rec := httptest.NewRecorder()
+				func() {
+					defer func() {
+						if p := recover(); p != nil {
+							rec.Code = 599
+						}
+					}()
+					router.ServeHTTP(rec, req)
+				}()
+				stored := ""
+				if fs, err := repo.GetFiles(); err == nil {
+					for _, sf := range fs {
+						stored += exportedOnly(dumpFile(sf)) + ";"
+					}
+				}
+				got := fmt.Sprintf("%d # %s", rec.Code, stored)
+				n++
+				rep.count(fmt.Sprintf("upload-fragmentation:%s:%s:%d", q.Kind, e, rec.Code))
+				if frag == 0 {
+					ref = got
+				} else if got != ref {
+					rep.violate(Violation{Key: "C16:upload-depends-on-fragmentation:" + q.Kind + ":" + e.String(), What: fmt.Sprintf("the same %s upload (%s, part %q) is answered / stored differently when its body arrives %d bytes at a time", q.Kind, e, q.Multipart, frag),
+						Replay: map[string]any{"kind": q.Kind, "content_type": q.CT, "multipart": q.Multipart, "enc": e.String(), "fragment": frag, "body": hx(out), "whole": ref[:min(120, len(ref))], "fragmented": got[:min(120, len(got))]}})
+					break
+				}
+			}
+		}
+	}
+	return n
 }
